@@ -1,7 +1,7 @@
 CONSTANTS
-  NT = 3
+  NT = 2
   MI = 2
-  MaxPolls = 2
+  MaxPolls = 3
   MaxW = 1
   NJ = 1
   Outcomes = {"selfwake", "ready", "panic"}
